@@ -8,7 +8,7 @@ def run(tier):
     chk = vtlib.Check("C11", tier, "exploration")
     thorough = tier == "thorough"
     san = dict(cxx="clang++", std="c++14", san="recover", asserts=True)
-    names = ["flat3", "deep3", "orthoroot", "plannest", "headless", "width1"] + (["stratutil", "nestedortho", "ortho89", "mixed14", "wide5", "nestutil", "plans2", "inject"] if thorough else [])
+    names = ["flat3", "deep3", "orthoroot", "plannest", "headless", "width1", "ortho8last"] + (["stratutil", "nestedortho", "ortho89", "mixed14", "wide5", "nestutil", "plans2", "inject"] if thorough else [])
     progs = en.curated(names=names, **san)
     progs += en.curated(names=["deep3", "orthoroot"] + (["headless"] if thorough else []), manual=True, features=NOSERIAL, **san)
     progs += en.curated(names=["deep3"] + (["plannest"] if thorough else []), payload="over", **san)
